@@ -307,7 +307,16 @@ func (n *network) evJoinMe(c *netChan) {
 		if n.g.S.Choose(4) == 0 {
 			trail += " " // some servers leave a trailing space
 		}
-		n.send(":irc.sim 353 "+n.me.nick+" = "+c.name+" :"+trail, append([]string{c.name}, mentioned[i:j]...), true)
+		// the channel-type symbol: public, private or secret
+		sym := "="
+		if c.flags['s'] {
+			sym = "@"
+		} else if c.flags['p'] {
+			sym = "*"
+		} else if n.g.S.Choose(4) == 0 {
+			sym = []string{"@", "*"}[n.g.S.Choose(2)]
+		}
+		n.send(":irc.sim 353 "+n.me.nick+" "+sym+" "+c.name+" :"+trail, append([]string{c.name}, mentioned[i:j]...), true)
 	}
 	n.send(":irc.sim 366 "+n.me.nick+" "+c.name+" :End of /NAMES list.", []string{c.name}, false)
 }
@@ -735,6 +744,23 @@ func trackRun(e *Env) {
 	}
 	c = NewClient(g.Knobs(ClientOpts{Nick: reqNick, Ident: "sim", Name: "Sim User", Flood: flood, Track: true}))
 	st := c.StateTracker()
+	trafficStarted := false
+	if g.Pct(40) {
+		// user REGISTER handlers that take their time: they run on the goroutine
+		// that called Connect, concurrently with the event loop handling the
+		// first server lines
+		for k := g.Range(2, 3); k > 0; k-- {
+			c.HandleFunc(client.REGISTER, func(*client.Conn, *client.Line) {
+				// still busy when the session's traffic starts, done some
+				// scheduling steps into it
+				simrt.BlockFor("track.register", "the session's traffic to start", time.Hour, func() bool { return trafficStarted })
+				for i := e.S.Choose(4) * e.S.Choose(60); i > 0; i-- {
+					simrt.Sleep(0)
+				}
+			})
+		}
+		e.S.Count("probe.slow-user-register-handlers")
+	}
 	if e.Prop == "C05" {
 		welcomed := func(kind string) client.HandlerFunc {
 			return func(c *client.Conn, l *client.Line) {
@@ -902,11 +928,15 @@ func trackRun(e *Env) {
 			}
 		}
 	}
-	if err := c.Connect(); err != nil {
-		e.Violation("harness-connect", "Connect failed: %v", err)
+	// (Connect returns only when its REGISTER handlers have: it is called from a
+	// task of its own so that slow ones overlap the session)
+	var connErr error
+	e.S.Spawn("connector", func() { connErr = c.Connect() })
+	simrt.BlockFor("track", "welcome", time.Hour, func() bool { return ready || connErr != nil })
+	if connErr != nil {
+		e.Violation("harness-connect", "Connect failed: %v", connErr)
 		return
 	}
-	simrt.BlockFor("track", "welcome", time.Hour, func() bool { return ready })
 	simrt.Settle(time.Second)
 	if g.Pct(30) {
 		// a watchdog that keeps calling Connect and EnableStateTracking on the
@@ -998,6 +1028,9 @@ func trackRun(e *Env) {
 		endReconnect = g.Bool()
 	}
 	for ev := 0; ev < nEvents && !e.S.Failed() && !ended; ev++ {
+		if ev == 1 {
+			trafficStarted = true
+		}
 		// answer a pending query now and then
 		if len(queries) > 0 && g.S.Choose(3) == 0 {
 			q := queries[0]
@@ -1179,6 +1212,7 @@ func trackRun(e *Env) {
 			simrt.Sleep(time.Duration(g.S.Choose(3)) * time.Millisecond)
 		}
 	}
+	trafficStarted = true
 	if ended {
 		simrt.Settle(2 * time.Minute)
 		c.Close()
